@@ -694,3 +694,144 @@ def run_param_fallbacks(res: Results, idx: Index) -> None:
     ctl = ast.parse("def r(primals, tangents, **params):\n    p = params.get('alpha', 1.0)\n    a = float(p) if isinstance(p, (int, float)) else 1.0\n    return a\n").body[0]
     fired = any(isinstance(x, ast.IfExp) and isinstance(x.orelse, ast.Constant) for x in ast.walk(ctl))
     res.control("R-C10g", "isinstance-guarded constant fallback on a params-derived name is recognised", fired, "synthetic rule")
+
+
+# ---------------------------------------------------------------------------------------------- R-C10h
+def run_forwarded_rule_params(res: Results, idx: Index) -> None:
+    """A transformation rule taken from JAX's registries for a lax primitive and installed on a plugin primitive
+    (`register_*_rule_forwarding(orig_prim=lax.X_p, new_prim=P._PRIM)`, `register_reduction_batch_rule(P._PRIM, lax.X_p)`, or a
+    direct copy `batching.<table>[P._PRIM] = batching.<table>.get(lax.X_p)`) is later called with the parameters the PLUGIN
+    binds.  Every keyword-only parameter without default of the JAX rule (its functools.partial layers unwrapped) must be
+    among the keys of the plugin's `bind(...)` calls, otherwise vmap / grad of the substitute raises a TypeError where plain
+    JAX evaluates the function.  The JAX rule's signature is read from the installed jax (third-party introspection)."""
+    import functools
+    import importlib
+    import inspect
+    res.rule("R-C10h", "rules forwarded from a lax primitive only require parameters the substitute primitive binds", floor=10)
+    res.trusted.append("signatures of the batching / JVP / transpose rules registered in the installed jax for lax primitives (inspect.signature)")
+
+    def lax_prim(expr: ast.AST):
+        d = dotted(expr) or ""
+        name = d.split(".")[-1]
+        if not name.endswith("_p"):
+            return None, name
+        for modname in ("jax.lax", "jax._src.lax.lax", "jax._src.lax.slicing", "jax._src.lax.control_flow", "jax._src.lax.windowed_reductions", "jax._src.lax.other", "jax._src.lax.special"):
+            try:
+                mod = importlib.import_module(modname)
+            except Exception:
+                continue
+            if hasattr(mod, name):
+                return getattr(mod, name), name
+        return None, name
+
+    def required(fn) -> Optional[Set[str]]:
+        given: Set[str] = set()
+        while isinstance(fn, functools.partial):
+            given |= set(fn.keywords or {})
+            fn = fn.func
+        r0 = _required0(fn)
+        return None if r0 is None else r0 - given
+
+    def _required0(fn) -> Optional[Set[str]]:
+        try:
+            sig = inspect.signature(fn)
+        except (TypeError, ValueError):
+            return None
+        return {p.name for p in sig.parameters.values() if p.kind == p.KEYWORD_ONLY and p.default is p.empty}
+
+    from jax._src.interpreters import ad as _ad, batching as _bt
+    n = 0
+    for m in idx.product_modules():
+        if "/plugins/" not in m.rel or "_p" not in m.src:
+            continue
+        pairs: List[Tuple[str, ast.AST, int, Tuple[str, ...]]] = []   # (owner, lax prim expr, line, which tables)
+        for st in ast.walk(m.tree):
+            if isinstance(st, ast.Call):
+                cn = (call_name(st) or "").split(".")[-1]
+                kw = {k.arg: k.value for k in st.keywords}
+                if cn.endswith("rule_forwarding") and kw.get("new_prim") is not None and kw.get("orig_prim") is not None:
+                    o = _prim_owner_name(kw["new_prim"])
+                    fb = kw.get("forward_batching")
+                    tables = ("jvp", "transpose") + (() if isinstance(fb, ast.Constant) and fb.value is False else ("batch",))
+                    if o:
+                        pairs.append((o, kw["orig_prim"], st.lineno, tables))
+                if cn == "register_reduction_batch_rule" and len(st.args) >= 2:
+                    o = _prim_owner_name(st.args[0])
+                    if o:
+                        pairs.append((o, st.args[1], st.lineno, ("batch",)))
+            if isinstance(st, ast.Assign) and len(st.targets) == 1 and isinstance(st.targets[0], ast.Subscript):
+                tab = (dotted(st.targets[0].value) or "").split(".")[-1]
+                o = _prim_owner_name(st.targets[0].slice)
+                if o and tab in ("primitive_batchers", "fancy_primitive_batchers", "primitive_jvps", "primitive_transposes"):
+                    v = st.value
+                    supplied: Tuple[str, ...] = ()
+                    if isinstance(v, ast.Call) and (call_name(v) or "").split(".")[-1] == "partial" and v.args:
+                        supplied = tuple(k.arg for k in v.keywords if k.arg)
+                        v = v.args[0]
+                    srcs = [v] + ([d.value for d in defuse(m.tree).defs.get(v.id, []) if d.value is not None] if isinstance(v, ast.Name) else [])
+                    for s_ in srcs:
+                        for c in ast.walk(s_):
+                            arg = None
+                            if isinstance(c, ast.Call) and isinstance(c.func, ast.Attribute) and c.func.attr == "get" and (dotted(c.func.value) or "").split(".")[-1].startswith(("primitive_", "fancy_primitive_")) and c.args:
+                                arg = c.args[0]
+                            if isinstance(c, ast.Subscript) and (dotted(c.value) or "").split(".")[-1].startswith(("primitive_", "fancy_primitive_")) and c is not st.targets[0]:
+                                arg = c.slice
+                            if arg is not None and (dotted(arg) or "").endswith("_p"):
+                                pairs.append((o, arg, st.lineno, ({"primitive_jvps": "jvp", "primitive_transposes": "transpose"}.get(tab, "batch"),) + tuple("+" + s for s in supplied)))
+        for owner, pexpr, line, tables in pairs:
+            n += 1
+            prim, pname = lax_prim(pexpr)
+            key = f"{m.rel}::{owner}::forwarded-params::{pname}"
+            site = f"{m.rel}:{line}"
+            if prim is None:
+                res.unresolved("R-C10h", site, key, f"`{src(pexpr, 40)}` is not a primitive of the installed jax.lax", owner)
+                continue
+            bound: Set[str] = set()
+            splat = False
+            n_bind = 0
+            for c in ast.walk(m.tree):
+                if isinstance(c, ast.Call) and isinstance(c.func, ast.Attribute) and c.func.attr == "bind" and (dotted(c.func.value) or "").endswith("_PRIM") and (dotted(c.func.value) or "").split(".")[0] in (owner, "cls", "self"):
+                    fi = m.func_containing(c)
+                    if fi is not None and ("batch" in fi.name or "jvp" in fi.name or "transpose" in fi.name):
+                        continue
+                    n_bind += 1
+                    for k in c.keywords:
+                        if k.arg is None:
+                            splat = True
+                        else:
+                            bound.add(k.arg)
+            def reg(table, p_):
+                try:
+                    return table.get(p_)
+                except Exception:
+                    try:
+                        return table[p_]
+                    except Exception:
+                        return None
+            rules = {"jvp": reg(_ad.primitive_jvps, prim), "transpose": reg(_ad.primitive_transposes, prim),
+                     "batch": reg(_bt.primitive_batchers, prim) or reg(getattr(_bt, "fancy_primitive_batchers", {}), prim)}
+            missing: Dict[str, Set[str]] = {}
+            unknown = False
+            supplied_here = {x[1:] for x in tables if x.startswith("+")}
+            tables = tuple(x for x in tables if not x.startswith("+"))
+            for tname in tables:
+                r_ = rules.get(tname)
+                if r_ is None:
+                    continue
+                req = required(r_)
+                if req is None:
+                    unknown = True
+                    continue
+                lack = req - bound - supplied_here
+                if lack:
+                    missing[tname] = lack
+            if n_bind == 0 or splat:
+                res.unresolved("R-C10h", site, key, f"the keys `{owner}` binds are not visible ({'**-splat at a bind site' if splat else 'no bind site in the module'})", owner)
+            elif missing:
+                txt = "; ".join(f"the {t_} rule of {pname} requires {sorted(v)}" for t_, v in sorted(missing.items()))
+                res.violation("R-C10h", site, key, f"{txt}, which `{owner}` never binds ({sorted(bound) or 'no keywords'}): the forwarded rule raises TypeError as soon as the substitute is used under that transformation", owner)
+            elif unknown:
+                res.unresolved("R-C10h", site, key, "a forwarded rule has no introspectable signature", owner)
+            else:
+                res.ok("R-C10h", site, key, f"{pname} rules ({', '.join(tables)}) need nothing beyond {sorted(bound) or 'the operands'}", owner)
+    res.analysed["forwarded_rule_pairs"] = n
